@@ -330,7 +330,10 @@ fn attempt(case: &Case, w: usize, timeout_ms: u64) -> Result<(bool, CaseInfo, Va
         return Ok((true, info, obs));
     }
     let Some(doc) = out.json() else {
-        return inconclusive(format!("run produced no JSON: {}", out.brief()));
+        if out.stderr_str().contains("Lock acquisition failed") {
+            return inconclusive(format!("run produced no JSON: {}", out.brief()));
+        }
+        return viol_obs("c16.failed", "the rendezvous run ended without a result".into(), obs);
     };
     let run = bb::parse_run(&doc).map_err(|e| Violation::new("c16.output", e))?;
     if run.failed || out.code != Some(0) {
